@@ -1028,10 +1028,10 @@ let rec consume_delims delims rest pos =
 type ms_state = (nat list * wgraph) * (nat * chunk list) list
 
 (** val ms_at :
-    prism -> (nat * text) list -> table -> text -> text -> ms_state -> nat ->
-    ms_state **)
+    nat -> prism -> (nat * text) list -> table -> text -> text -> ms_state ->
+    nat -> ms_state **)
 
-let ms_at pr syls t delims inp st start_pos =
+let ms_at mhg pr syls t delims inp st start_pos =
   let (p, coll) = st in
   let (verts, wg) = p in
   if negb (existsb (Nat.eqb start_pos) verts)
@@ -1051,17 +1051,20 @@ let ms_at pr syls t delims inp st start_pos =
              | Some _ -> same_start
              | None -> app same_start ((end_pos, []) :: [])
            in
-           if Nat.leb (S O) (length homographs)
+           if Nat.leb mhg (length homographs)
            then ((verts0, same_start0), coll0)
            else let it =
                   snd (lookup_words pr syls t (firstn mlen active) false O)
                 in
                 (match iter_peek it with
-                 | Some d ->
+                 | Some _ ->
                    (((end_pos :: verts0),
                      (map (fun eh ->
                        if Nat.eqb (fst eh) end_pos
-                       then ((fst eh), (app (snd eh) (d :: [])))
+                       then ((fst eh),
+                              (app (snd eh)
+                                (firstn (sub mhg (length homographs))
+                                  (drain_all it))))
                        else eh) same_start0)),
                      (if Nat.eqb start_pos O
                       then app coll0 ((consumed, it) :: [])
@@ -1074,17 +1077,17 @@ let ms_at pr syls t delims inp st start_pos =
        ((verts', (app wg ((start_pos, same_start) :: []))), coll')
 
 (** val table_ms :
-    prism -> (nat * text) list -> table -> text -> text -> ms_state **)
+    nat -> prism -> (nat * text) list -> table -> text -> text -> ms_state **)
 
-let table_ms pr syls t delims inp =
-  fold_left (ms_at pr syls t delims inp) (seq O (length inp)) (((O :: []),
-    []), [])
+let table_ms mhg pr syls t delims inp =
+  fold_left (ms_at mhg pr syls t delims inp) (seq O (length inp))
+    (((O :: []), []), [])
 
 (** val table_wgraph :
-    prism -> (nat * text) list -> table -> text -> text -> wgraph **)
+    nat -> prism -> (nat * text) list -> table -> text -> text -> wgraph **)
 
-let table_wgraph pr syls t delims inp =
-  snd (fst (table_ms pr syls t delims inp))
+let table_wgraph mhg pr syls t delims inp =
+  snd (fst (table_ms mhg pr syls t delims inp))
 
 (** val prefix_phrases : (nat * chunk list) list -> cand list **)
 
@@ -1097,15 +1100,15 @@ let prefix_phrases coll =
         (flat_map (fun ci -> map (fun c -> ((fst ci), c)) (snd ci)) coll)))
 
 (** val table_sentence :
-    (wgraph -> nat -> sentence option) -> prism -> (nat * text) list -> table
-    -> text -> text -> cand list option **)
+    (wgraph -> nat -> sentence option) -> nat -> prism -> (nat * text) list
+    -> table -> text -> text -> cand list option **)
 
-let table_sentence poet pr syls t delims inp =
-  match poet (table_wgraph pr syls t delims inp) (length inp) with
+let table_sentence poet mhg pr syls t delims inp =
+  match poet (table_wgraph mhg pr syls t delims inp) (length inp) with
   | Some s ->
     Some
       ((sentence_cand s) :: (prefix_phrases
-                              (snd (table_ms pr syls t delims inp))))
+                              (snd (table_ms mhg pr syls t delims inp))))
   | None -> None
 
 (** val table_entries :
@@ -1120,22 +1123,22 @@ let table_entries presort completion pr syls t code0 =
          (maybe_sort presort (snd (lookup_words pr syls t code0 false O)))
 
 (** val table_query_gen :
-    (wgraph -> nat -> sentence option) -> bool -> bool -> bool -> prism ->
-    (nat * text) list -> table -> text -> text -> cand list **)
+    (wgraph -> nat -> sentence option) -> bool -> bool -> bool -> nat ->
+    prism -> (nat * text) list -> table -> text -> text -> cand list **)
 
-let table_query_gen poet presort completion sentence_on pr syls t delims inp =
+let table_query_gen poet presort completion sentence_on mhg pr syls t delims inp =
   let code0 = trim_right delims inp in
   (match table_entries presort completion pr syls t code0 with
    | [] ->
      if sentence_on
-     then (match table_sentence poet pr syls t delims inp with
+     then (match table_sentence poet mhg pr syls t delims inp with
            | Some l -> distinct [] l
            | None -> [])
      else []
    | d :: l -> distinct [] (map (table_cand (length inp)) (d :: l)))
 
 (** val table_query :
-    (wgraph -> nat -> sentence option) -> bool -> bool -> prism ->
+    (wgraph -> nat -> sentence option) -> bool -> bool -> nat -> prism ->
     (nat * text) list -> table -> text -> text -> cand list **)
 
 let table_query poet =
